@@ -289,6 +289,7 @@ MACH = {"input_vars": ["i", "j"], "output_vars": ["o"],
 HUM = {"input_vars": ["i", "j"], "output_vars": ["o"], "assumptions": ["i <= 1", "-i + 0.5 j <= 2"],
        "guarantees": ["o - i <= 2"]}
 KINDS: List[Tuple[str, Any]] = [("null", None), ("bool", True), ("number", 3), ("number", 1.5), ("string", "zz"),
+                                ("string", "3"), ("string", "1e-3"),  # text that would parse as a number
                                 ("list", []), ("list", ["zz"]), ("list", [1]), ("object", {}), ("object", {"k": 1})]
 
 
